@@ -40,11 +40,12 @@ pub fn job_source(j: usize) -> String {
         }
         8 => "#stage(macro)\nfn twice() {\n  `{ 2.0 }\n}\n#stage(main)\nfn nest(x) {\n  let (((a2, b2), (a1, b1)), (a0, b0)) = (((x, 2.0), (3.0, 4.0)), (5.0, 6.0))\n  a2 * 100000.0 + b2 * 10000.0 + a1 * 1000.0 + b1 * 100.0 + a0 * 10.0 + b0\n}\nfn dsp(x) {\n  nest(x) * twice!()\n}\n".into(),
         9 => "#stage(macro)\nfn thrice() {\n  `{ 3.0 }\n}\n#stage(main)\nfn flat(x) {\n  let (p0, q0) = (x, 2.0)\n  let (p1, q1) = (q0, p0)\n  p1 * 10.0 + q1\n}\nfn dsp(x) {\n  flat(x) * thrice!()\n}\n".into(),
+        10 => "use osc::sinwave\nuse math::*\nfn dsp(x) {\n  sinwave(440.0, 0.0) * 0.5 + x * PI()\n}\n".into(),
         _ => "type Dir = Up | Down | Left(float)\ntype alias Pt = {px:float, py:float}\nfn f(d: Dir) {\n  match d {\n    Up => 1.0,\n    Down => 2.0,\n    Left(v) => v\n  }\n}\nfn norm(p: Pt) {\n  p.px * p.px + p.py\n}\nfn dsp(x) {\n  f(Left(x)) + norm({px = x, py = 2.0}) + min(x, 1.0) + sqrt(abs(x))\n}\n".into(),
     }
 }
-pub const JOB_NAMES: [&str; 10] = ["counter", "counter_again", "shared_identifiers", "syntax_error", "type_error", "macro", "huge_identifier", "types_and_builtins", "macro_nested_tuple_let", "macro_flat_tuple_let"];
-pub const NJOBS: usize = 10;
+pub const JOB_NAMES: [&str; 11] = ["counter", "counter_again", "shared_identifiers", "syntax_error", "type_error", "macro", "huge_identifier", "types_and_builtins", "macro_nested_tuple_let", "macro_flat_tuple_let", "library_modules"];
+pub const NJOBS: usize = 11;
 
 /// what a job observes: diagnostics or outputs (and the WASM module hash)
 pub fn run_job(j: usize) -> String {
@@ -277,7 +278,9 @@ fn pairs(tier: Tier) -> Vec<(usize, usize)> {
     let mut v = vec![];
     for a in 0..NJOBS {
         for b in a..NJOBS {
-            if tier == Tier::Quick && !(a == 0 || b == a + 1 || (a, b) == (5, 6) || (a, b) == (3, 4)) {
+            // quick: every job against the counter job, neighbours in the menu, and the library job against itself;
+            // the long staging / library jobs are paired with the counter job only in the thorough tier
+            if tier == Tier::Quick && (!(a == 0 || b == a + 1 || (a, b) == (10, 10)) || [(0, 5), (0, 8), (0, 9), (9, 10)].contains(&(a, b))) {
                 continue;
             }
             v.push((a, b));
@@ -413,7 +416,7 @@ impl Prop for C19 {
         let s = solo();
         Descr {
             rule: format!(
-                "K = 2 threads each run one job 'compile with ExecContext + run 4 samples on the VM + emit WASM (+ render diagnostics)' from a menu of {NJOBS} sources built to collide (identical sources, shared identifiers, a syntax error, a type error, a macro program (stage-0 VM + MIMIUM_CURRENT_MACRO_FILE), a 64 KiB identifier that forces the interner buffer to grow, types/enums/builtins, two macro programs whose main-stage code goes through the staging translation with a nested resp. flat tuple let); job pairs: {:?}. Scheduling points measured per job (solo): {:?}. A hand-rolled baton scheduler lets a thread lose control only at a scheduling point placed before every with_session_globals / env-var / file-cache access. Explored: bound 0 (both serial orders); bound 1: one preemption at every {}scheduling point of either thread; thorough additionally bound 2 on jobs under 3000 points (second preemption at every 97th point of the other thread, for every 16th first point). Each schedule: both jobs' observations must equal their solo observations; a silent partner for 20 s is a deadlock. states/traces = schedules executed; transitions = scheduling points passed.",
+                "K = 2 threads each run one job 'compile with ExecContext + run 4 samples on the VM + emit WASM (+ render diagnostics)' from a menu of {NJOBS} sources built to collide (identical sources, shared identifiers, a syntax error, a type error, a macro program (stage-0 VM + MIMIUM_CURRENT_MACRO_FILE), a 64 KiB identifier that forces the interner buffer to grow, types/enums/builtins, two macro programs whose main-stage code goes through the staging translation with a nested resp. flat tuple let, a program that imports library modules from files (`use osc::sinwave`, `use math::*`, found through MIMIUM_LIB_PATH = the repository's lib directory)); job pairs: {:?}. Scheduling points measured per job (solo): {:?}. A hand-rolled baton scheduler lets a thread lose control only at a scheduling point placed before every with_session_globals / env-var / file-cache access. Explored: bound 0 (both serial orders); bound 1: one preemption at every {}scheduling point of either thread; thorough additionally bound 2 on jobs under 3000 points (second preemption at every 97th point of the other thread, for every 16th first point). Each schedule: both jobs' observations must equal their solo observations; a silent partner for 20 s is a deadlock. states/traces = schedules executed; transitions = scheduling points passed.",
                 pairs(tier).iter().map(|(a, b)| format!("{}+{}", JOB_NAMES[*a], JOB_NAMES[*b])).collect::<Vec<_>>(),
                 s.iter().map(|x| x.1).collect::<Vec<_>>(),
                 if tier == Tier::Quick { "16th " } else { "" }
